@@ -33,20 +33,21 @@ Section RunTotal.
   Notation TS := Src.BT_FileStart. Notation TC := Src.BT_FileContent.
   Notation TA := Src.BT_EndOfArchiveData. Notation TE := Src.BT_EndOfFile.
 
-  Lemma do_reads_safe fuel : forall b sizes to_end, I (b_src b) -> b_offs b <> [] ->
-    let '(b', rows) := do_reads k S fuel b sizes to_end in
+  Lemma do_reads_safe zf fuel : (N.to_nat M < zf)%nat ->
+    forall b sizes to_end, I (b_src b) -> b_offs b <> [] ->
+    let '(b', rows) := do_reads k S zf fuel b sizes to_end in
     I (b_src b') /\ no_crash_rows rows.
   Proof.
-    induction fuel as [|fuel IH]; intros b sizes to_end Hb Hne; cbn [do_reads].
+    intros Hzf. induction fuel as [|fuel IH]; intros b sizes to_end Hb Hne; cbn [do_reads].
     - split; [exact Hb|]. apply ncr_cons; [cbn; lia|apply ncr_nil].
     - destruct sizes as [|n rest]; [split; [exact Hb|apply ncr_nil]|].
-      pose proof (bread_tame (cFNMAX k) TS TC TA TE S I pos M HT b n Hb Hne) as H.
+      pose proof (bread_tame (cFNMAX k) TS TC TA TE S I pos M HT zf b n Hb Hne Hzf) as H.
       unfold bread_post in H.
-      destruct (bread (cFNMAX k) TS TC TA TE S b n) as [b1 [d|e|c]];
+      destruct (bread (cFNMAX k) TS TC TA TE S zf b n) as [b1 [d|e|c]];
         destruct H as (Hb1 & Ho & _ & Ht & _).
       + match goal with |- context [if ?c then _ else _] => destruct c end.
         * specialize (IH b1 (match rest with [] => [n] | _ :: _ => rest end) to_end Hb1 ltac:(congruence)).
-          destruct (do_reads k S fuel b1 (match rest with [] => [n] | _ :: _ => rest end) to_end) as [b2 rows].
+          destruct (do_reads k S zf fuel b1 (match rest with [] => [n] | _ :: _ => rest end) to_end) as [b2 rows].
           destruct IH as [Hb2 Hr]. split; [exact Hb2|]. apply ncr_cons; [cbn; lia|exact Hr].
         * split; [exact Hb1|]. apply ncr_cons; [cbn; lia|apply ncr_nil].
       + split; [exact Hb1|]. apply ncr_cons; [cbn; lia|apply ncr_nil].
@@ -64,7 +65,7 @@ Section RunTotal.
                   end)) ->
     (forall i sizes to_end, P (match get_file (cFNMAX k) TS TC TA TE S r (name_at i) with
                   | (r1, Ok (Some (b, size))) =>
-                    let '(b1, rows) := do_reads k S fuel b sizes to_end in
+                    let '(b1, rows) := do_reads k S fuel fuel b sizes to_end in
                     (mkR (b_src b1) (r_meta r1), [7; size] :: rows)
                   | (r1, Ok None) => (r1, [[4]])
                   | (r1, x) => (r1, [err_row x])
